@@ -515,11 +515,39 @@ inductive CacheKind
   | plain                                     -- bare session, no cache
   deriving DecidableEq, Repr
 
-/-- `prepareCache(clearCache, enableCache, cachePath, maxAge)`; `rmtreeOk` = `shutil.rmtree(cachePath)`
-returns (it raises `FileNotFoundError`/`OSError` when the directory is missing or unremovable) -/
-def prepareCache (toInt : Str → Option Int) (clearCache enableCache rmtreeOk : Bool) (maxAge : Str) :
+/-- what `shutil.rmtree(cachePath)` does -/
+inductive RmResult
+  | removed            -- the directory existed and is gone
+  | missing            -- FileNotFoundError: there was no such directory
+  | otherError         -- any other OSError (permissions, not a directory, …)
+  deriving DecidableEq, Repr
+
+/-- `prepareCache(clearCache, enableCache, cachePath, maxAge)` (after /repo commit f96af79:
+`FileNotFoundError` from `shutil.rmtree` is swallowed — nothing to clear) -/
+def prepareCache (toInt : Str → Option Int) (clearCache enableCache : Bool) (rm : RmResult) (maxAge : Str) :
     Outcome CacheKind :=
-  if clearCache && !rmtreeOk then .raised .osError
+  -- if clearCache: try: shutil.rmtree(cachePath)  except FileNotFoundError: pass
+  let cleared : Outcome Unit :=
+    if clearCache then
+      match rm with
+      | .removed => .ok ()
+      | .missing => .ok ()
+      | .otherError => .raised .osError
+    else .ok ()
+  match cleared with
+  | .raised e => .raised e
+  | .ok () =>
+    if enableCache then
+      match parseMaxAge toInt maxAge with
+      | .raised e => .raised e
+      | .ok (u, n) => .ok (.caching u n)
+    else .ok .plain
+
+/-- PRE-FIX `prepareCache` (before f96af79): every error of `shutil.rmtree`, a missing directory
+included, reached the caller.  Kept only for the historical counterexample. -/
+def prepareCacheOld (toInt : Str → Option Int) (clearCache enableCache : Bool) (rm : RmResult) (maxAge : Str) :
+    Outcome CacheKind :=
+  if clearCache && rm != .removed then .raised .osError
   else if enableCache then
     match parseMaxAge toInt maxAge with
     | .raised e => .raised e
